@@ -25,6 +25,7 @@ import (
 	"time"
 
 	"github.com/prometheus/client_golang/prometheus"
+	apierrors "k8s.io/apimachinery/pkg/api/errors"
 	"k8s.io/apimachinery/pkg/util/sets"
 	"k8s.io/client-go/tools/cache"
 	glog "k8s.io/klog"
@@ -584,6 +585,11 @@ func (ci *crdIpam) AllocateInSubnetsAndIPRange(key string, nodeSubnet *net.IPNet
 				}
 				if err := ci.deleteFloatingIP(allocatedIPStrs[j]); err != nil {
 					glog.Errorf("failed to delete floatingIP %s: %v", allocatedIPStrs[j], err)
+					if !apierrors.IsNotFound(err) {
+						// the object is still in the store, keep the cache in agreement with it: the ip stays allocated to
+						// the key and the next allocation for the key takes it as already owned
+						ci.syncCacheAfterCreate(allocatedFips[j])
+					}
 				}
 			}
 			return nil, err
